@@ -7,6 +7,7 @@ import (
 	"crypto"
 	"crypto/sha256"
 	"crypto/sha512"
+	"crypto/subtle"
 	"encoding/hex"
 	"sort"
 
@@ -68,16 +69,44 @@ func fe(b []byte) *field.Element { var f field.Element; f.SetBytes(b); return &f
 var msgHello = []byte("hello world")
 var hHello = sha512.Sum512(msgHello)
 
+// scalars derives the n secret scalars of one multi-secret call from the current secret. The secrets of one call also
+// stand in a RELATION to each other that is itself secret and that differs from secret to secret (chosen by a hash of
+// the secret): unrelated; all equal; the first two equal (neighbours); the second the negative of the first; the
+// first and the last equal (not neighbours). Code that compares, merges or sorts its secret inputs shows here.
 func scalars(n int) []*scalar.Scalar {
 	var ss []*scalar.Scalar
 	h := Cur
+	rel := int32(sha512.Sum512(append([]byte("relation"), Cur[:]...))[0] % 5)
+	// the relation is a secret too: everything below is selected without branching on it (the harness itself runs
+	// inside the observed region)
 	for i := 0; i < n; i++ {
 		d := sha512.Sum512(h[:])
 		copy(h[:], d[:])
-		ss = append(ss, sc(h[:32]))
+		fresh := sc(h[:32])
+		if i == 0 { // public
+			ss = append(ss, fresh)
+			continue
+		}
+		same := scalar.New().Set(ss[0]) // a distinct object holding the same value
+		neg := scalar.New().Neg(ss[0])
+		second, last := 0, 0 // public
+		if i == 1 {
+			second = 1
+		}
+		if i == n-1 {
+			last = 1
+		}
+		useSame := subtle.ConstantTimeEq(rel, 1) | subtle.ConstantTimeEq(rel, 2)&second | subtle.ConstantTimeEq(rel, 4)&last
+		useNeg := subtle.ConstantTimeEq(rel, 3) & second
+		v := scalar.New().ConditionalSelect(fresh, same, useSame)
+		v.ConditionalSelect(v, neg, useNeg)
+		ss = append(ss, v)
 	}
 	return ss
 }
+
+// Relation reports the relation scalars() uses for the current secret (for the evidence).
+func Relation() int { return int(sha512.Sum512(append([]byte("relation"), Cur[:]...))[0] % 5) }
 
 var Ops = map[string]func(){
 	// Ed25519
